@@ -484,7 +484,7 @@ class World(object):
         if self.nt:
             ctx.label("nontrivial")
             ctx.nt((self.kind, repr(case["ops"])))
-            if 6 <= len(case["ops"]) <= 16:
+            if 6 <= len(case["ops"]) <= 16 and case not in ctx.samples:
                 ctx.sample(case)
 
 
@@ -669,7 +669,7 @@ def plan(tier):
                 for first in range(15):
                     specs.append({"part": "enum", "kind": kind, "ann": ann, "depth": 5, "first": first})
         for i in range(64):
-            specs.append({"part": "sm", "kind": kinds[i % 2], "n": 6000, "i": i})
+            specs.append({"part": "sm", "kind": kinds[i % 2], "n": 8000, "i": i})
     return specs
 
 
